@@ -1,8 +1,14 @@
-"""Runs the REAL code (plain /venv interpreter, un-instrumented sources of $JASM_REPO) on a concrete
-input and prints a JSON result.  Used by vf.replay and the sweeps.
+"""Runs the REAL code (plain /venv interpreter, un-instrumented sources of $JASM_REPO) on concrete inputs
+and prints JSON results.  Used by vf.replay and vf.sweeps.   stdin: one job or a list of jobs.
 
-input (stdin JSON): {"rule": <yaml object>, "insts": [[addr, mnemonic, [operands]], ...],
-                     "macros_files": [<yaml objects>], "mode": "all"|"first", "only_addr": bool}
+job kinds
+  (default)  {"rule": yaml-object, "insts": [[addr, mnemonic, [operands]], ...], "mode": "all"|"first", "only_addr": bool,
+              "macros_files": [yaml-objects]}     compile with Yaml2Regex, feed the instructions to the real CompleteConsumer
+  "compile"  {"rule", "macros_files"}             regex text or error
+  "mop"      {"rule", "listing": text, "macros_files", "modes": [[return_mode, search_mode, only_addr], ...]}
+              the public entry point MasterOfPuppets on a listing file, once per mode, IN ONE PROCESS in the given order
+  "parse"    {"lines": [...]}                     parse_line per line + the stream of the whole listing
+  "history"  {"ops": [mop-jobs]}                  several mop operations one after the other in this process
 """
 import json
 import os
@@ -11,8 +17,27 @@ import tempfile
 import traceback
 
 
-def run_one(job, tmp):
+def _content_file(tmp, prefix, text, suffix):
+    """content-addressed file: the same text is the same path (and is written once) within one process,
+    as it would be for a user who passes the same macro / rule / input file to several operations"""
+    import hashlib
+    p = os.path.join(tmp, f"{prefix}_{hashlib.sha256(text.encode()).hexdigest()[:12]}{suffix}")
+    if not os.path.exists(p):
+        with open(p, "w") as f:
+            f.write(text)
+    return p
+
+
+def _write_rule(job, tmp, tag=""):
     import yaml
+    rp = _content_file(tmp, "rule", yaml.safe_dump(job["rule"], sort_keys=False), ".yaml")
+    mfiles = []
+    for k, mo in enumerate(job.get("macros_files") or []):
+        mfiles.append(_content_file(tmp, "macros", yaml.safe_dump(mo, sort_keys=False), ".yaml"))
+    return rp, mfiles
+
+
+def run_default(job, tmp):
     from jasm.consumer import CompleteConsumer
     from jasm.global_definitions import Instruction, MatchingSearchMode
     from jasm.matched_observers import MatchedObserver
@@ -20,21 +45,13 @@ def run_one(job, tmp):
     from jasm.stringify_asm.implementations.observers import RemoveEmptyInstructions
     import regex
     out = {}
-    rp = os.path.join(tmp, "rule.yaml")
-    with open(rp, "w") as f:
-        yaml.safe_dump(job["rule"], f, sort_keys=False)
-    mfiles = []
-    for k, mo in enumerate(job.get("macros_files") or []):
-        mp = os.path.join(tmp, f"macros{k}.yaml")
-        with open(mp, "w") as f:
-            yaml.safe_dump(mo, f, sort_keys=False)
-        mfiles.append(mp)
+    rp, mfiles = _write_rule(job, tmp)
     try:
         rule = Yaml2Regex(rp, macros_from_terminal=mfiles or None).produce_regex()
     except Exception as e:
         return {"error": f"{type(e).__name__}: {e}", "stage": "compile"}
     out["regex"] = rule
-    if job.get("insts") is None:
+    if job.get("kind") == "compile" or job.get("insts") is None:
         return out
     try:
         obs = MatchedObserver()
@@ -56,6 +73,60 @@ def run_one(job, tmp):
     return out
 
 
+def run_mop(job, tmp, tag=""):
+    from jasm.global_definitions import MatchConfig, InputFileType, MatchingReturnMode, MatchingSearchMode
+    from jasm.match import MasterOfPuppets
+    rp, mfiles = _write_rule(job, tmp, tag)
+    if job.get("binary_path"):
+        ip = job["binary_path"]
+    else:
+        ip = _content_file(tmp, "input", job["listing"], ".s")
+    res = []
+    for (rm, sm, oa) in job.get("modes") or [["bool", "first_find", False]]:
+        try:
+            cfg = MatchConfig(pattern_pathstr=rp, input_file=ip,
+                              input_file_type=InputFileType.binary if job.get("binary_path") else InputFileType.assembly,
+                              return_only_address=bool(oa), return_mode=getattr(MatchingReturnMode, rm),
+                              matching_mode=getattr(MatchingSearchMode, sm), macros=mfiles or None)
+            r = MasterOfPuppets(cfg).perform_matching()
+            res.append({"mode": [rm, sm, oa], "result": r})
+        except Exception as e:
+            res.append({"mode": [rm, sm, oa], "error": f"{type(e).__name__}: {e}"})
+    return {"results": res}
+
+
+def run_parse(job, tmp):
+    from jasm.stringify_asm.implementations.gnu_objdump.asm_manual_parser_w_regex import parse_line
+    from jasm.global_definitions import Instruction
+    out = []
+    for ln in job["lines"]:
+        try:
+            r = parse_line(ln)
+            if isinstance(r, Instruction):
+                out.append({"inst": [r.addr, r.mnemonic, list(r.operands)]})
+            else:
+                out.append({"other": type(r).__name__})
+        except Exception as e:
+            out.append({"error": f"{type(e).__name__}: {e}"})
+    res = {"lines": out}
+    if job.get("stream"):
+        sub = run_mop({"rule": {"pattern": ["zzzz"]}, "listing": "\n".join(job["lines"]),
+                       "modes": [["all_instructions_string", "first_find", False]]}, tmp, "p")
+        res["stream"] = sub["results"][0]
+    return res
+
+
+def run_one(job, tmp):
+    k = job.get("kind")
+    if k == "mop":
+        return run_mop(job, tmp)
+    if k == "parse":
+        return run_parse(job, tmp)
+    if k == "history":
+        return {"ops": [run_mop(op, tmp) for op in job["ops"]]}
+    return run_default(job, tmp)
+
+
 def main():
     import logging
     logging.disable(logging.CRITICAL)
@@ -64,9 +135,12 @@ def main():
     if single:
         jobs = [jobs]
     res = []
-    with tempfile.TemporaryDirectory() as tmp:
-        for j in jobs:
-            res.append(run_one(j, tmp))
+    for j in jobs:
+        with tempfile.TemporaryDirectory() as tmp:
+            try:
+                res.append(run_one(j, tmp))
+            except Exception as e:
+                res.append({"error": f"runner: {type(e).__name__}: {e}", "trace": traceback.format_exc(limit=4)})
     json.dump(res[0] if single else res, sys.stdout)
 
 
